@@ -67,6 +67,7 @@ Proof.
   intros Hc H. unfold step_corr, model_step, mview, view_of_model in *. rewrite Hc in H.
   destruct (run (s_env s) cfg (s_users s) (CMount n) (world_of w)) as [o st].
   cbn [r_class r_log r_fs r_ks r_layers v_res v_log v_after wo_ks] in *.
+  apply andb_true_iff in H as [_ H].
   apply andb_true_iff in H as [H _]. apply andb_true_iff in H as [H Hk].
   apply andb_true_iff in H as [H _]. apply andb_true_iff in H as [Hr Hl].
   apply rclass_beq_eq in Hr. apply (list_beq_eq _ op_beq_eq) in Hl. apply kstate_beq_eq in Hk.
